@@ -73,9 +73,12 @@ def run_unit(unit, ctx):
     R = K.Result()
     rng = K.unit_rng(ID, ctx["seed"], unit)
     i = unit["i"]
-    defn = gen_defn(rng, i, ctx["tier"])
+    wraps = (i % 4 == 3)   # angle-wrap idioms (asin(sin u) ...) in process and sensor models
+    defn = gen_defn(rng, i, ctx["tier"], wraps=wraps)
     while not defn["sensors"]:
-        defn = gen_defn(rng, i, ctx["tier"])
+        defn = gen_defn(rng, i, ctx["tier"], wraps=wraps)
+    if any(w_ in __import__("json").dumps([defn["model"], defn["sensors"]]) for w_ in ("asinsin", "acoscos", "atantan")):
+        R.stats.inc("programs_with_angle_wrap_idioms")
     k = rng.choice([None, 2.0, 5.0])
     cse_py = rng.random() < 0.5
     cse_cpp = cse_py if rng.random() < 0.5 else not cse_py
